@@ -576,3 +576,120 @@ theorem csrf_at_most_once_fails_with_prune :
   simpa [c, demoMac] using h
 
 end DashLive.Csrf
+
+namespace DashLive.Life
+
+/-! ## Credential lifecycle: logout, deletion, expiry – for every clock
+
+`St` carries the clock, the `Token` rows and the existing accounts; histories are arbitrary lists of
+logins, token refreshes, API and HTML logouts, account deletions, server restarts and clock jumps
+(`tick n`, any value).  A credential the server no longer accepts makes its presenter anonymous
+for the guards of `DashLive.Auth` (`Request.token = none` / `session = nobody`). -/
+/-- **After an API logout no refresh token issued before it is ever accepted again** -/
+theorem api_logout_voids_refresh (st : St) (t : Tok) (hacc : tokAccepted st t .access = true)
+    (t' : Tok) (hty : t'.typ = .refresh) (hown : t'.owner = t.owner) (hold : t'.jti < st.nextJti)
+    (hwf : ∀ r ∈ st.rows, r.jti = t'.jti → r.owner = t'.owner)
+    (evs : List Ev) (want : TokType) :
+    tokAccepted (final (step st (.apiLogout t)).1 evs) t' want = false := by
+  apply voided_refused _ _ hty
+  apply voided_final
+  refine ⟨Nat.lt_of_lt_of_le hold (step_nextJti_mono st _), ?_⟩
+  intro r hr hj ht
+  simp only [step, hacc, if_true] at hr
+  rcases mem_revokeAccess hr with rfl | ⟨r1, h1, e1, _, e3, _, e5, _⟩
+  · cases ht
+  · obtain ⟨r0, h0, f1, _, _, _, _, f6⟩ := mem_revokeAll h1
+    exact e5 (f6 ((hwf r0 h0 (f1 ▸ e1 ▸ hj)).trans hown))
+
+theorem html_logout_voids_refresh (st : St) (c : Cookie) (hacc : cookieAccepted st c = true)
+    (t' : Tok) (hty : t'.typ = .refresh) (hown : t'.owner = c.owner) (hold : t'.jti < st.nextJti)
+    (hwf : ∀ r ∈ st.rows, r.jti = t'.jti → r.owner = t'.owner)
+    (evs : List Ev) (want : TokType) :
+    tokAccepted (final (step st (.htmlLogout c)).1 evs) t' want = false := by
+  apply voided_refused _ _ hty
+  apply voided_final
+  refine ⟨Nat.lt_of_lt_of_le hold (step_nextJti_mono st _), ?_⟩
+  intro r hr hj ht
+  simp only [step, hacc, if_true] at hr
+  obtain ⟨r0, h0, f1, _, _, _, _, f6⟩ := mem_revokeAll hr
+  exact f6 ((hwf r0 h0 (f1 ▸ hj)).trans hown)
+
+/-- **Credentials of a deleted account are void for ever** -/
+theorem deleted_user_voids_everything (st : St) (u : Nat) (evs : List Ev) :
+    (∀ (t : Tok) (want : TokType), t.owner = u →
+      tokAccepted (final (step st (.deleteUser u)).1 evs) t want = false) ∧
+    (∀ c : Cookie, c.owner = u → cookieAccepted (final (step st (.deleteUser u)).1 evs) c = false) := by
+  have hu : (step st (.deleteUser u)).1.users.contains u = false := by
+    simp [step]
+  have hf := users_final u evs _ hu
+  constructor
+  · intro t want ho
+    unfold tokAccepted
+    rw [ho, hf]; simp
+  · intro c ho
+    unfold cookieAccepted
+    rw [ho, hf]; simp
+
+/-- **The access token an API logout was called with is never accepted again** -/
+theorem api_logout_voids_presented_access (st : St) (t : Tok) (hacc : tokAccepted st t .access = true)
+    (hfresh : ∀ r ∈ st.rows, r.jti = t.jti → r.typ ≠ .access) (evs : List Ev) (want : TokType) :
+    tokAccepted (final (step st (.apiLogout t)).1 evs) t want = false := by
+  have hty : t.typ = .access := by
+    unfold tokAccepted at hacc
+    simp only [Bool.and_eq_true, beq_iff_eq] at hacc
+    exact hacc.1.1.1
+  have h0 : AccessVoided (step st (.apiLogout t)).1 t := by
+    right
+    simp only [step, hacc, if_true]
+    have hany : (revokeAll st.rows t.owner).any (fun r => r.jti == t.jti && r.typ == TokType.access) = false := by
+      rw [Bool.eq_false_iff]
+      intro h
+      obtain ⟨r, hr, hp⟩ := List.any_eq_true.1 h
+      obtain ⟨r1, h1, e1, _, e3, _⟩ := mem_revokeAll hr
+      simp only [Bool.and_eq_true, beq_iff_eq] at hp
+      exact hfresh r1 h1 (e1 ▸ hp.1) (e3 ▸ hp.2)
+    unfold revokeAccess
+    simp only [hany, Bool.false_eq_true, if_false]
+    refine ⟨⟨_, List.mem_cons_self .., rfl, rfl, rfl⟩, ?_⟩
+    intro r hr hj ht
+    rcases List.mem_cons.1 hr with rfl | hr'
+    · exact ⟨rfl, rfl⟩
+    · obtain ⟨r1, h1, e1, _, e3, _⟩ := mem_revokeAll hr'
+      exact absurd (e3 ▸ ht) (hfresh r1 h1 (e1 ▸ hj))
+  rcases accessVoided_final t evs _ h0 with hu | ⟨⟨r, hr, hj, ht, _⟩, hall⟩
+  · unfold tokAccepted; rw [hu]; simp
+  · exact not_accepted_of_rows_revoked _ t want
+      (fun r hr hj ht => (hall r hr hj (ht.trans hty)).1)
+      (Or.inr ⟨r, hr, hj, ht.trans hty.symm⟩)
+
+/-- **Negative result (open finding D14g).**  Access tokens are stateless: an access token of the
+same account other than the one the logout was called with stays accepted until its `exp`. -/
+theorem other_access_survives_api_logout :
+    ∃ (st : St) (t t2 : Tok), tokAccepted st t .access = true ∧ t2.owner = t.owner ∧ t2.jti < st.nextJti ∧
+      tokAccepted (step st (.apiLogout t)).1 t2 .access = true := by
+  refine ⟨{ now := 10, rows := [], users := [1], nextJti := 5 },
+    { jti := 1, owner := 1, typ := .access, exp := 900 },
+    { jti := 2, owner := 1, typ := .access, exp := 905 }, by decide, rfl, by decide, by decide⟩
+
+/-- **Negative result (open finding D14f).**  The session cookie is a signed value the server keeps
+no record of: a copy presented after the logout is still accepted (until it is 31 days old). -/
+theorem cookie_copy_survives_logout :
+    ∃ (st : St) (c : Cookie), cookieAccepted st c = true ∧
+      cookieAccepted (step st (.htmlLogout c)).1 c = true := by
+  exact ⟨{ now := 10, rows := [], users := [1], nextJti := 5 }, { owner := 1, issued := 0 },
+    by decide, by decide⟩
+
+/-- non-vacuity of the logout theorems: a login's credentials are accepted before the logout,
+the refresh token still after 8 days (its row has "expired" but nothing has pruned it) -/
+example :
+    let st0 : St := { now := 0, rows := [], users := [1], nextJti := 0 }
+    let s1 := (step st0 (.login 1)).1
+    let a : Tok := { jti := 0, owner := 1, typ := .access, exp := accessLife }
+    let r : Tok := { jti := 1, owner := 1, typ := .refresh, exp := refreshJwtLife }
+    tokAccepted s1 a .access = true ∧ tokAccepted s1 r .refresh = true ∧
+      tokAccepted { s1 with now := 8 * 86400 } r .refresh = true ∧
+      tokAccepted { s1 with now := 8 * 86400 } a .access = false := by
+  decide
+
+
+end DashLive.Life
